@@ -33,6 +33,22 @@ CLAIMED = {
         note=COMMON_NOTE + 'Which trace number is current at a write is model D1 (C06); absence of Pdb text in reported output is '
              'checked on real-child runs only (Pdb writes to its private StdInOut stream).',
         technique='Lean 4 invariant proof over write lists + differential correspondence (hand-written model) + real-child oracle'),
+    'C11': dict(
+        text=('Theorems over model C (the nine registrars behind the on_event_in_process dispatcher) for every well-formed event '
+              'stream and every prefix of one (a kill), any number of traces/trace calls/prompts, any previous registrar state: no '
+              'hook raises; the trace_nos value is, at every moment, the traces started and not ended in start order and is published '
+              'exactly at starts/ends and as () at run end; every started trace gets trace_info running then finished exactly once '
+              '(also when killed); the registrars\' key set equals the per-trace prompt topics published and not ended since, for every '
+              'event stream, and at run end every such topic and prompt_notice are ended (so, with C08 ends_cleanly, every subscriber '
+              'attached while they were live terminates). Prompt open/closed and notice/start matching are carried by the exact '
+              'correspondence and the oracle, not yet by a theorem. Tied to /repo by driving the real registrars through the real hook '
+              'caller of a real Nextline object with generated and exhaustive small streams at every kind of prefix (publications '
+              'compared per hook call and per key with the compiled model), eager and lazy subscribers attached at random points, and '
+              'recorded real-child runs.'),
+        design='§6 C11, §5 model C',
+        note=COMMON_NOTE + 'Well-formedness of the child\'s stream is property C09; F2 atomicity of hook implementations is assumed and '
+             'exercised. Clauses "prompt open then closed with its command" and "notices match starts" are checked by correspondence + oracle only.',
+        technique='Lean 4 simulation/invariant proof over event lists + differential correspondence (hand-written model) + oracle'),
 }
 
 REASON_TODO = 'check not built yet in this revision of /verif (planned, see DESIGN.md §6); not claimed until its theorems and correspondence exist'
